@@ -30,7 +30,14 @@ def _sample(job):
     m.set_random_state(seed)
     rec = {'fam': fam, 'tau': tau, 'seed': seed, 'n': n, 'err': '', 'exact': [], 'stats': {}}
     try:
-        X = np.asarray(m.sample(n), dtype=float)
+        if n < 0:
+            # many small requests in a row on one seeded model: successive calls advance the stream, so the pooled rows are a sample too
+            k = -n
+            X = np.vstack([np.asarray(m.sample(k), dtype=float).reshape(k, 2) for _ in range(3000 // k)])
+            n = len(X)
+            rec['n'] = n
+        else:
+            X = np.asarray(m.sample(n), dtype=float)
     except Exception as ex:
         rec['err'] = type(ex).__name__
         return rec
@@ -80,6 +87,7 @@ def run(ctx):
     # (uniform draws, column order, clipping) is then resolved to ~0.01
     jobs = [(fam, tau, ctx.seed * 100 + s, n * 16 if fam == 'Clayton' else n) for fam in O.FAMS for tau in taus[fam] for s in seeds]
     jobs += [(fam, taus[fam][1], ctx.seed * 100 + 50 + k, k) for fam in O.FAMS for k in (1, 2, 3)]      # tiny requests: exact clauses only
+    jobs += [(fam, taus[fam][-1], ctx.seed * 100 + 70 + k, -k) for fam in O.FAMS for k in (1, 2)]      # 3000 / 1500 requests of one / two rows, pooled
     jobs.sort(key=lambda j: j[0] == 'Clayton')
     with Pool(16) as pool:
         recs = pool.map(_sample, jobs, chunksize=1)
